@@ -127,6 +127,12 @@ pub fn seeds() -> Vec<(String, Vec<u8>)> {
             v.push(("sbix-dupe-out-of-range".into(), patch(4, 0xFFFF)));
         }
     }
+    // synthetic variable fonts from the C12 generator (HVAR/MVAR kinds incl. LONG_WORDS delta sets, DeltaSetIndexMap,
+    // intermediate regions, shared point numbers, a composite glyph with varying offsets)
+    v.extend(crate::c12::seeds_for_c01());
+    // CFF / CFF2 fonts from the C18 generator: seac composites (well-formed, self-referencing, cyclic, chained), recursive
+    // and deeply nested subroutines, CID-keyed fonts, CFF2 with blend, hint masks, operand-stack limits
+    v.extend(crate::c18::seeds_for_c01());
     // a TrueType collection of two small fonts sharing tables
     {
         let t = otmodel::tables::minimal_tables(4, &cm, &[]);
